@@ -183,6 +183,17 @@ void File::close() {
     }
 }
 
+#ifdef VECTOR_BLF_VERIF
+void File::verifSetLimits(uint32_t queueCapacity, std::streamsize bufferBytes) {
+    m_readWriteQueue.setBufferSize(queueCapacity);
+    m_uncompressedFile.setBufferSize(bufferBytes);
+}
+
+void File::verifHeld(size_t & containers, size_t & bytes) const {
+    m_uncompressedFile.verifHeld(containers, bytes);
+}
+#endif
+
 uint32_t File::defaultLogContainerSize() const {
     return m_uncompressedFile.defaultLogContainerSize();
 }
